@@ -8,6 +8,7 @@ mod fragdirect;
 mod hostile;
 mod hostilegen;
 mod keeplast;
+mod keyident;
 mod lifespan;
 mod oversleep;
 
@@ -98,6 +99,7 @@ fn main() {
                 hostile::run_parent(&shard)
             }
         }
+        "c11" => keyident::run(&shard),
         "c26" => cfilter::run(&shard),
         "c27" => keeplast::run(&shard),
         "c29" => lifespan::run(&shard),
